@@ -1088,7 +1088,7 @@ func main() {
 		{"S-dfs-1p2-close", SchedCfg{Progs: [][]int{{0, 0}}, NNext: 2, NClose: 1}},
 		{"S-dfs-2p-distinct", SchedCfg{Progs: [][]int{{0}, {1}}, NNext: 1}},
 	}
-	depth, leavesMax := 14, 400
+	depth, leavesMax := 14, 1600
 	if o.Thorough() {
 		small = append(small,
 			dcfg{"S-dfs-2p-close", SchedCfg{Progs: [][]int{{0}, {1}}, NNext: 3, NClose: 1}},
